@@ -85,3 +85,8 @@ def run(rep, tier):
     rule_one_dict(rep)
     for k in (0, 1, 2):
         prep_table(rep, "T10-partition", k, False, "both" if k < 2 or tier == "thorough" else "none")
+    # the partition must survive sliver absorption (default threshold is on in save())
+    for k in (1, 2):
+        prep_table(rep, "T10-partition", k, True, "none" if tier == "quick" else "both")
+    rep.rule("B2-save-order", "in Textgrid.save the text is computed (and can raise) before the destination is opened for writing: a failed save leaves no truncated, ill-formed file (shared with C04/C13)")
+    common.rule_save_order(rep, ["Textgrid.save"])
